@@ -15,7 +15,7 @@ RULE = ("sphere->plane->sphere: unit vectors (uniform; 1e-12..1e-1 rad neighbour
 ASSUMPTIONS = ["inputs are handed to the library as (theta, phi) computed by the harness with atan2",
                "face-plane geometry (inradius (sqrt5-1)/2, circumradius 3-sqrt5, edge midpoints at gamma = 72deg*i) is the published A5 face layout"]
 TOL = 1e-11
-REQUIRED_CLASSES = {"s2p:adjacent_face": (None, 0.1), "p2s:mirror_triangle": (None, 0.05), "s2p:near_frame": (None, 0.1)}
+REQUIRED_CLASSES = {"s2p:adjacent_face": ("s2p", 0.5), "p2s:mirror_triangle": ("p2s", 0.05), "s2p:near_frame": ("s2p", 0.1)}
 
 D_EDGE = (math.sqrt(5) - 1) / 2
 D_VERT = 3 - math.sqrt(5)
@@ -34,6 +34,10 @@ def _lib():
             axes.append((math.sin(ph) * math.cos(th), math.sin(ph) * math.sin(th), math.cos(ph)))
         _state.update(proj=proj, axes=axes, origins=origins)
     return _state["proj"], _state["axes"]
+
+
+_BUF = [0.0, 0.0]
+_QBUF = [0.0, 0.0]
 
 
 def _angle(a, b):
@@ -69,8 +73,17 @@ def judge_s2p(case, col):
         nt = True
     if case.get("cls") in ("seam", "edge"):
         nt = True
+    use_buf = case.get("buf", (hash(tuple(case["v"])) & 1) == 0)
     for face, tag in ((F, "nearest_face"), (G, "adjacent_face")):
-        xy = guarded(proj.forward, sp, face, kind="forward_raised", case=case)
+        if use_buf:
+            # a caller recycling one coordinate buffer: same list object, overwritten in place for every point
+            _BUF[0], _BUF[1] = sp[0], sp[1]
+            arg = _BUF
+        else:
+            arg = sp
+        xy = guarded(proj.forward, arg, face, kind="forward_raised", case=case)
+        if use_buf and (_BUF[0] != sp[0] or _BUF[1] != sp[1]):
+            raise Violation("argument_modified", case, observed=list(_BUF), expected=list(sp))
         back = guarded(proj.inverse, xy, face, kind="inverse_raised", case=case)
         err = _angle(v, _to_vec(back))
         col.measure(f"s2p_err_{tag}", err, case)
@@ -103,7 +116,11 @@ def judge_p2s(case, col):
     proj, axes = _lib()
     q = tuple(case["q"])
     face = case["face"]
-    sp = guarded(proj.inverse, q, face, kind="inverse_raised", case=case)
+    if (hash(q) & 1) == 0:
+        _QBUF[0], _QBUF[1] = q[0], q[1]
+        sp = guarded(proj.inverse, _QBUF, face, kind="inverse_raised", case=case)
+    else:
+        sp = guarded(proj.inverse, q, face, kind="inverse_raised", case=case)
     back = guarded(proj.forward, sp, face, kind="forward_raised", case=case)
     err = math.hypot(back[0] - q[0], back[1] - q[1])
     col.measure("p2s_err", err, case)
